@@ -123,6 +123,31 @@ class Runner:
 
     def _run(self, store, ops):
         ds, st = store.ds, store.st
+        pool = {}  # a client that re-uses its Event objects: same content -> same Python object
+
+        def ev_obj(e, used=None):
+            """the client's Event object for this content; its id is (re)set to what the operation passes
+            (`used`: objects already placed in the list of the current bulk call - one object cannot be two elements)"""
+            key = (e[1], e[2], e[3])
+            o = pool.get(key)
+            if o is not None and used is not None and any(o is u for u in used):
+                o = None
+                key = None
+            if o is None:
+                o = mk_event(e)
+                if key is not None:
+                    pool[key] = o
+            else:
+                o.id = e[0]
+                o.timestamp = us_to_dt(e[1])
+                o.duration = us_to_dt(e[2]) - us_to_dt(0)
+                o.data = json.loads(e[3]) if e[3] else {}
+            return o
+
+        def h(b):
+            """the client's handle of bucket b (looked up earlier; possibly stale)"""
+            return ds.bucket_instances.get(b) or _handle(ds, b)
+
         refs = []  # k -> concrete id
         outs, resolved, dumps = [], [], []
         known_ids = set()  # (bucket, id) seen in dumps
@@ -160,7 +185,7 @@ class Runner:
                     ev[0] = self.resolve(ev[0], refs)
                     rop[2] = ev
                     had_id = ev[0] is not None
-                    r = st.insert_one(op[1], mk_event(ev))
+                    r = h(op[1]).insert(ev_obj(ev))
                     if not had_id:
                         refs.append(r.id)
                     out = ["ok", r.id]
@@ -174,7 +199,10 @@ class Runner:
                     before = {(b, e[0]) for b, v in dump(store).items() for e in v["events"]}
                     n_new = sum(1 for e in evs if e[0] is None)
                     try:
-                        st.insert_many(op[1], [mk_event(e) for e in evs])
+                        objs = []
+                        for e in evs:
+                            objs.append(ev_obj(e, objs))
+                        h(op[1]).insert(objs)
                     finally:
                         after = dump(store)
                         new = sorted(e[0] for e in after.get(op[1], {"events": []})["events"]
@@ -185,21 +213,21 @@ class Runner:
                 elif k == "replace":
                     i = self.resolve(op[2], refs)
                     rop[2] = i
-                    st.replace(op[1], i, mk_event([None] + list(op[3][1:])))
+                    h(op[1]).replace(i, ev_obj([self.resolve(op[3][0], refs)] + list(op[3][1:])))
                     out = ["ok"]
                 elif k == "replacelast":
                     try:
-                        last = st.get_events(op[1], 1)
+                        last = h(op[1]).get(1)
                         hint = last[0].id if last else None
                     except Exception:
                         hint = None
                     rop.append(hint)
-                    st.replace_last(op[1], mk_event([None] + list(op[2][1:])))
+                    h(op[1]).replace_last(ev_obj([self.resolve(op[2][0], refs)] + list(op[2][1:])))
                     out = ["ok"]
                 elif k == "delete":
                     i = self.resolve(op[2], refs)
                     rop[2] = i
-                    r = st.delete(op[1], i)
+                    r = h(op[1]).delete(i)
                     out = ["ok", bool(r)]
                 elif k == "get":
                     b = ds.bucket_instances.get(op[1]) or _handle(ds, op[1])
@@ -209,10 +237,10 @@ class Runner:
                 elif k == "getbyid":
                     i = self.resolve(op[2], refs)
                     rop[2] = i
-                    r = st.get_event(op[1], i)
+                    r = h(op[1]).get_by_id(i)
                     out = ["ok", None if r is None else ev_tuple(r)]
                 elif k == "count":
-                    r = st.get_eventcount(op[1], us_to_dt(op[2]) if op[2] is not None else None,
+                    r = h(op[1]).get_eventcount(us_to_dt(op[2]) if op[2] is not None else None,
                                           us_to_dt(op[3]) if op[3] is not None else None)
                     out = ["ok", r]
                 else:
